@@ -164,6 +164,27 @@ def campaign(c):
             b2 = [strip(l) for l in base_out]
             if sorted(o2) != sorted(b2):
                 c.violation('det:diagnostics', 'diagnostics differ under environment %s: %s vs %s' % (env, o2[:2], b2[:2]), rep)
+        # the very same command line (absolute input and output paths) started from different working directories: every byte of
+        # what is printed, and the exit status, is the same
+        if i % 3 == 0:
+            d = tempfile.mkdtemp(prefix='rsw')
+            try:
+                os.makedirs(os.path.join(d, 'in')); os.makedirs(os.path.join(d, 'out', 'sub'))
+                ip_ = os.path.join(d, 'in', name + '.rsyn'); open(ip_, 'wb').write(src)
+                outs = []
+                for argv, cwds in (([core.CLI, '--out-dir', os.path.join(d, 'out'), ip_], [d, '/', os.path.join(d, 'out'), os.path.join(d, 'in'), os.path.join(d, 'out', 'sub')]),
+                                   ([core.CLI, '-o', os.path.join(d, 'out', 'x.pcap'), ip_], [d, '/', os.path.join(d, 'out')])):
+                    seen = []
+                    for cw in cwds:
+                        pr = subprocess.run(argv, capture_output=True, cwd=cw, env=dict(PATH='/usr/bin:/bin'), timeout=120)
+                        seen.append((pr.returncode, pr.stdout))
+                    if len(set(seen)) != 1:
+                        k = [x != seen[0] for x in seen].index(True)
+                        c.violation('det:cwd', 'the same command line prints something else when started from another directory: %r vs %r'
+                                    % (seen[0][1][-160:].decode('utf-8', 'replace').replace(d, '<T>'), seen[k][1][-160:].decode('utf-8', 'replace').replace(d, '<T>')), dict(rep, cwd=cwds[k].replace(d, '<T>'), args=[a.replace(d, '<T>') for a in argv[1:]]))
+                c.count('cwd-variants')
+            finally:
+                shutil.rmtree(d, ignore_errors=True)
         # text-level variants
         if impl['outcome'][0] == 'success' and b'"' not in src.replace(b'"|', b'').replace(b'|"', b'') or True:
             try:
